@@ -53,6 +53,8 @@ func hfText(f hfFrag, p int) string {
 		return "Repeated Body Notice"
 	case 7:
 		return "Document Title Line"
+	case 8:
+		return "Overview"
 	}
 	return fmt.Sprintf("Body text unique %d", f.Key)
 }
@@ -63,6 +65,12 @@ func hfPos(f hfFrag) (int, int) {
 	case "Top":
 		if f.Slot == 1 {
 			return 72, 760
+		}
+		if f.Slot >= 20 { // same x on every page, another height (12 pt apart, inside the band)
+			return 420, []int{780, 780, 770, 750, 728}[f.Slot-20]
+		}
+		if f.Slot >= 10 { // same height on every page, another x (45 pt apart)
+			return 330 + 45*(f.Slot-10), 724
 		}
 		return 200, 740
 	case "Bottom":
